@@ -440,7 +440,7 @@ theorem refr_opPick {s : St} (h : Refr s) (call pn : Nat) (m : String) (ctx : Ct
                 · exact h
                 · simp only
                   split
-                  · exact refr_of_same h ((show SameR s { s with rr := (s.rr + 1) % 2 ^ 32 } from ⟨rfl, rfl, fun _ => rfl⟩).trans
+                  · exact refr_of_same h ((show SameR s { s with rr := (s.rr + 1) % 2 ^ 64 } from ⟨rfl, rfl, fun _ => rfl⟩).trans
                       (sameR_finishPick _ _ _ _ _ _ _ _ _))
                   · exact refr_of_same h ⟨rfl, rfl, fun _ => rfl⟩
               · have h1 := refr_chooseSlot h c l key
